@@ -226,6 +226,52 @@ theorem add_rejects_bad_name (id : Nat) (V : Vocab) (key : String) (d : Data)
     · rw [List.contains_iff_mem.2 h]; simp
   simp [add, this]
 
+/-- The documented rule ("valid Python 2 identifiers beginning with a capital letter"). -/
+def isIdent (s : String) : Bool :=
+  match s.toList with
+  | [] => false
+  | c :: rest => c.isUpper && rest.all (fun x => x.isAlphanum || x == '_')
+
+/-- table side conditions, re-checked against the table regenerated from the source on every run: the
+accepted first characters are ASCII capitals, the later ones ASCII letters, digits or `_`, the empty
+name is refused, the end anchor does not let a trailing newline through and no non-ASCII code point
+is accepted (the model's `regexOk` is ASCII-only; `nameAcceptsNonAscii` is what the translator observed) -/
+theorem generated_name_table_is_identifier_rule :
+    Generated.nameFirstChars.toList.all (fun c => c.isUpper) = true ∧
+    Generated.nameRestChars.toList.all (fun x => x.isAlphanum || x == '_') = true ∧
+    Generated.nameAcceptsEmpty = false ∧ Generated.nameAcceptsTrailingNewline = false ∧
+    Generated.nameAcceptsNonAscii = false := by
+  decide
+
+/-- every name `add` accepts is an identifier in the documented sense (so e.g. `"A\n"`, `"Bé"`, `""`
+are refused) -/
+theorem nameOk_is_identifier (key : String) (h : nameOk key = true) : isIdent key = true := by
+  obtain ⟨h1, h2, h3, h4, _⟩ := generated_name_table_is_identifier_rule
+  unfold nameOk at h
+  simp only [Bool.and_eq_true] at h
+  obtain ⟨⟨hr, _⟩, _⟩ := h
+  unfold regexOk at hr
+  simp only [h4, Bool.false_and, Bool.false_eq_true, if_false] at hr
+  unfold isIdent
+  cases hcs : key.toList with
+  | nil => rw [hcs] at hr; simp [h3] at hr
+  | cons c rest =>
+    rw [hcs] at hr
+    simp only [Bool.and_eq_true, List.all_eq_true] at hr ⊢
+    obtain ⟨hc, hrest⟩ := hr
+    rw [List.all_eq_true] at h1 h2
+    refine ⟨h1 c (List.contains_iff_mem.1 hc), fun x hx => ?_⟩
+    exact h2 x (List.contains_iff_mem.1 (hrest x hx))
+
+/-- hence a name with a character outside the identifier alphabet is rejected without change -/
+theorem add_rejects_non_identifier (id : Nat) (V : Vocab) (key : String) (d : Data)
+    (h : isIdent key = false) : add id V key d = .error .spaParse := by
+  have : nameOk key = false := by
+    cases hn : nameOk key with
+    | false => rfl
+    | true => rw [nameOk_is_identifier key hn] at h; exact absurd h (by decide)
+  simp [add, this]
+
 theorem add_rejects_special (id : Nat) (V : Vocab) (key : String) (d : Data)
     (h : isSpecial key = true) : add id V key d = .error .spaParse := by
   apply add_rejects_bad_name
@@ -546,16 +592,16 @@ example : WInv exW := by
 candidate is too similar to `A` and is skipped by `create_pointer` -/
 def exOps : List Op :=
   [.parse .a "A + B", .getitem .a "a", .add .a "C" (.arr [1, 2, 3]), .add .a "A" (.arr [9, 9, 9, 9]),
-   .add .a "A\n" (.arr [5, 6, 7, 8]), .getitem .b "Q", .populate .b "X; Y",
+   .add .a "A\n" (.arr [5, 6, 7, 8]), .add .a "E9_" (.arr [5, 6, 7, 8]), .getitem .b "Q", .populate .b "X; Y",
    .add .a "Zero" (.arr [0, 0, 0, 1]), .add .a "D" (.ptr ⟨[0, 0, 0, 1], some 1, 0⟩),
    .transformTo .a (some ["A", "Nope"]) (some true) [] []]
 
 example : abs ((run exW exOps).get .a)
-    = [("A", [1, 0, 0, 0]), ("B", [0, 1, 0, 0]), ("A\n", [5, 6, 7, 8])] := by decide +kernel
+    = [("A", [1, 0, 0, 0]), ("B", [0, 1, 0, 0]), ("E9_", [5, 6, 7, 8])] := by decide +kernel
 example : abs ((run exW exOps).get .b) = [("X", [0, 0, 0, 1])] := by decide +kernel
 example : trace exW exOps =
-    [.ptr (some ⟨[1, 1, 0, 0], some 0, 0⟩), .err .spaParse, .err .validation, .err .validation, .done,
-     .err .key, .err .stopIteration, .err .spaParse, .err .validation, .err .stopIteration] := by
+    [.ptr (some ⟨[1, 1, 0, 0], some 0, 0⟩), .err .spaParse, .err .validation, .err .validation, .err .spaParse,
+     .done, .err .key, .err .stopIteration, .err .spaParse, .err .validation, .err .stopIteration] := by
   decide +kernel
 
 end C09
